@@ -625,7 +625,15 @@ func (pk *PublicKey) VerifySignature(signed hash.Hash, sig *Signature) (err erro
 		return nil
 	case PubKeyAlgoEdDSA:
 		eddsaPublicKey := pk.PublicKey.(ed25519.PublicKey)
-		if !ed25519.Verify(eddsaPublicKey, hashBytes, append(sig.ECDSASigR.bytes, sig.ECDSASigS.bytes...)) {
+		// R and S are stored as MPIs, i.e. without leading zero octets: left-pad each to 32 octets
+		r, s := sig.ECDSASigR.bytes, sig.ECDSASigS.bytes
+		if len(r) > ed25519.SignatureSize/2 || len(s) > ed25519.SignatureSize/2 {
+			return errors.SignatureError("EdDSA verification failure")
+		}
+		sigBytes := make([]byte, ed25519.SignatureSize)
+		copy(sigBytes[ed25519.SignatureSize/2-len(r):], r)
+		copy(sigBytes[ed25519.SignatureSize-len(s):], s)
+		if !ed25519.Verify(eddsaPublicKey, hashBytes, sigBytes) {
 			return errors.SignatureError("EdDSA verification failure")
 		}
 		return nil
